@@ -47,7 +47,8 @@ claim("C09", "SLICE SCOPE. ReCompiler::parse_character_class and CharacterClassB
       "character) - so each statement holds for all probes at once: [a], [ab], [a-b] denote exactly those characters (all non-meta "
       "a,b; reversed ranges rejected), with flag i also every case counterpart of every member of a range (ranges <=3 chars); "
       "[\\e] for every escape char e denotes its set, \\S \\D \\W \\I \\C being complements; for all backslash-free group contents "
-      "G,H (<=3 / <=2 chars): [^G] = complement of [G] and accepted iff [G] is, [G-[H]] = [G] minus [H], [GH] = union. Outside: the "
+      "G,H (<=3 / <=2 chars): [^G] = complement of [G] and accepted iff [G] is, [GH] = union; thorough tier: [G-[H]] = [G] minus "
+      "[H] for single-character G,H, and escapes inside classes. Outside: the "
       "contents of \\d \\w \\i \\c \\p{..} (ICU data, C10), escapes inside law operands, nesting deeper than one subtraction, "
       "classes under quantifiers/groups, and the real ICU inversion-list builder (replaced by the probe stand-in).", "DESIGN.md 4 C09")
 claim("C11", U + "equal_case_blind(a,b) = (a==b or equal simple-lowercase images) for ALL pairs (lower-casing modelled arithmetically), "
